@@ -66,6 +66,16 @@ class Check:
             self.functions.add(function)
 
     # -- finishing ------------------------------------------------------
+    def has_unlisted(self):
+        """True when a violation that no known finding lists has been recorded so far."""
+        kf = [f for f in load_known().get("findings", []) if f["property"] == self.pid]
+        for v in self.obligations:
+            if v["verdict"] == "VIOLATED" and not any(
+                    f["rule"] == v["rule"] and f.get("function", "") == v.get("function", "") and
+                    f["construct"] == v.get("construct") for f in kf):
+                return True
+        return False
+
     def finish(self):
         known = load_known()
         kf = [f for f in known.get("findings", []) if f["property"] == self.pid]
